@@ -243,7 +243,21 @@ func poke() {
 var napHook func()
 
 // until is hx.Until that also wakes on news from a reader goroutine.
+// exhausted counts the long waits that ran out: an implementation that answers nothing any more (a broken
+// send path, say) has shown that after a few dozen of them, and the rest of the run is then given a tenth of
+// the budgets so that reporting it does not take an hour.
+var exhausted int
+
 func until(budget time.Duration, cond func() bool) bool {
+	long := budget >= time.Second
+	if long && exhausted > 30 {
+		budget /= 10
+	}
+	defer func() {
+		if long && !cond() {
+			exhausted++
+		}
+	}()
 	for budget > 0 {
 		if cond() {
 			return true
@@ -281,6 +295,8 @@ type peer struct {
 	closed bool // the reader saw the end of the connection, or the peer hung up itself
 
 	stalled int32 // the peer has stopped reading (atomic)
+	wedged  int32 // a write to the node timed out (atomic)
+	silent  bool  // missed a barrier ping once
 
 	stage  byte      // ground truth from what this peer sent: f h v x
 	lastHs time.Time // when the node's handshake timer was last restarted
@@ -323,11 +339,36 @@ func (p *peer) isClosed() bool {
 }
 
 func (p *peer) send(b []byte) bool {
-	if p.isClosed() {
+	if p.isClosed() || atomic.LoadInt32(&p.wedged) == 1 {
 		return false
 	}
-	p.conn.SetWriteDeadline(time.Now().Add(20 * time.Second)) // safety net against a wedged pipe, not an oracle
-	_, err := p.conn.Write(b)
+	// the write returns when the node has read the bytes; it is waited for with a patient budget (3 s of harness
+	// running time) and then cut off
+	p.conn.SetWriteDeadline(time.Time{})
+	res := make(chan error, 1)
+	go func() { _, err := p.conn.Write(b); res <- err }()
+	var err error
+	fast := false
+	select {
+	case err = <-res:
+		fast = true
+	case <-time.After(2 * time.Millisecond):
+	}
+	if fast {
+	} else if hx.Until(3*time.Second, func() bool { return len(res) > 0 }) {
+		err = <-res
+	} else {
+		p.conn.SetWriteDeadline(time.Now())
+		err = <-res
+		if err == nil {
+			err = fmt.Errorf("late")
+		}
+	}
+	if err != nil {
+		// the node does not take our bytes any more (its read loop is stuck): pay for that once, not at every
+		// barrier ping of the rest of the script; the connection shows as silent from here on
+		atomic.StoreInt32(&p.wedged, 1)
+	}
 	return err == nil
 }
 
@@ -543,7 +584,9 @@ func (w *world) barrier() string {
 	}
 	until(longWait, func() bool {
 		for _, p := range w.peers {
-			if !p.isClosed() && !p.hasPong(nonce) {
+			// a connection that already missed a barrier is not waited for again (it is reported silent each time;
+			// waiting the whole budget for it at every op of the script would only cost time)
+			if !p.isClosed() && !p.silent && !p.hasPong(nonce) {
 				return false
 			}
 		}
@@ -558,6 +601,7 @@ func (w *world) barrier() string {
 			sb.WriteByte('-')
 		default:
 			sb.WriteByte('0')
+			p.silent = true
 		}
 	}
 	return sb.String()
